@@ -35,6 +35,7 @@ func monitor(c schedCase, r *result, stopped bool) []string {
 	}
 	// ---- C01: order ----
 	open := map[int]bool{}
+	ended, endedOK := map[int]bool{}, map[int]bool{}
 	lastStart := map[int]int{}
 	for _, e := range r.Events {
 		if e.Node >= 1000 {
@@ -45,6 +46,13 @@ func monitor(c schedCase, r *result, stopped bool) []string {
 			starts[e.Node]++
 			lastStart[e.Node] = e.Seq
 			for _, d := range c.Nodes[e.Node].Deps {
+				// whatever LABEL the dependency carries: its last execution must have ended, and ended well
+				// unless it has continueOn.failure (fresh runs, non-repeating dependencies)
+				// (a dependency that failed and was then skipped by its own re-checked precondition is licensed by the
+				//  skip rule; the clause is about a dependency that is LABELLED finished)
+				if len(c.Init) == 0 && !c.Dry && !c.Nodes[d].Rep && d < len(e.St) && e.St[d] == "finished" && ended[d] && !endedOK[d] {
+					add("C01:start-after-dependency-whose-last-execution-failed:node=%d dep=%d", e.Node, d)
+				}
 				if c.Nodes[d].Rep {
 					// repeatPolicy is outside C01's quantifier: a repeating step with continueOn.failure keeps
 					// the label 'failed' while it goes on iterating (DESIGN 5/C01, observation O1)
@@ -63,6 +71,8 @@ func monitor(c schedCase, r *result, stopped bool) []string {
 			open[e.Node] = true
 		case "end":
 			open[e.Node] = false
+			ended[e.Node] = true
+			endedOK[e.Node] = e.OK
 		}
 	}
 	for i := 0; i < n; i++ {
